@@ -6,8 +6,7 @@ import RosuModel.Lemmas.LegacySort
 Partial correctness of the literal model: whenever `heapSort gt l lo hi` returns, the keys at
 positions `lo..=hi` are non-decreasing, positions outside the range are untouched and every key
 inside the range comes from inside the range.  (That it does return on in-range arguments is
-covered by the correspondence runs; the theorems that use this file only need partial
-correctness.)
+proved in `Lemmas/SortTotal.lean`.)
 
 1-based heap index `k` lives at list position `lo + k - 1`.
 -/
